@@ -168,10 +168,15 @@ def cmdApply1 (c : Codec α) : P String := do
   let d ← nat; let t ← tok; let op ← (parseVals c t : Option (Array α)); let A ← site c; done
   pure (showSite c (applySite d (fun x y => op.getD (x * d + y) 0) A))
 
-/-- `t.corr K d opvals <chain from left>` → the numbers whose real parts fill `result[left, left:]` -/
+/-- `t.corr K r|a d opvals <chain from left>` → the numbers whose real parts fill `result[left, left:]`
+(`r` = repaired variant = current code, `a` = as found before 7ffda71) -/
 def cmdCorr (c : Codec α) : P String := do
+  let v ← tok
   let d ← nat; let t ← tok; let op ← (parseVals c t : Option (Array α)); let fs ← chain c; done
-  pure (showList c.render (corrRow d (fun x y => op.getD (x * d + y) 0) fs))
+  let opf : Nat → Nat → α := fun x y => op.getD (x * d + y) 0
+  if v = "r" then pure (showList c.render (corrRow d opf fs))
+  else if v = "a" then pure (showList c.render (corrRowAsFound d opf fs))
+  else failure
 
 def basis : P Basis := do
   let t ← tok
